@@ -54,7 +54,15 @@ def T(q, u=3):
     return Time(F(q), c17.U(u))
 
 
+def TH(h, u):
+    """the duration of h hours written in unit u (configured durations may be given in any unit)"""
+    return T(F(h) * 3600 / FACT[u], u)
+
+
 def hours(t):
+    if t is None:
+        from .common import ImplBroken
+        raise ImplBroken("a duration that the component is documented to hold (remaining repair / outage time, sectioning time) is None")
     return t.get_hours()
 
 
@@ -169,7 +177,7 @@ def sensor_case(case):
         kw = dict(fail_rate_per_year=P["rate"], p_fail_repair_new_signal=P["pNew"], p_fail_repair_reboot=P["pReboot"],
                   new_signal_time=T(P["tNew"] * 3600, 1), reboot_time=T(P["tReboot"] * 60, 2))
         if not case.get("default_manual"):
-            kw["manual_repair_time"] = T(P["tManual"], 3)
+            kw["manual_repair_time"] = TH(P["tManual"], case.get("manual_unit", 3))
         s = Sensor(f"S{i}", l, **kw)
         s.ps_random = rng
         sensors.append(s); lines.append(l)
@@ -226,10 +234,10 @@ def switch_case(case):
     a, b = Bus("B0"), Bus("B1")
     l = Line("L0", a, b, r=F(1, 2), x=F(1, 2))
     d = Disconnector("D0", l, a)
-    kw = {} if case.get("default_manual") else {"manual_repair_time": T(tR, 3)}
+    kw = {} if case.get("default_manual") else {"manual_repair_time": TH(tR, case.get("manual_unit", 3))}
     sw = IntelligentSwitch("IS0", d, fail_rate_per_year=rate, **kw)
     sw.ps_random = rng
-    net = Obj(); net.controller = Obj(); net.controller.manual_sectioning_time = T(tS, 3)
+    net = Obj(); net.controller = Obj(); net.controller.manual_sectioning_time = TH(tS, case.get("manual_unit", 3))
     l.parent_network = net
     sig = set()
     for st in case["steps"]:
@@ -279,7 +287,7 @@ def ctrl_case(case):
     c = MainController("C", hardware_fail_rate_per_year=P["hw"], software_fail_rate_per_year=P["sw"],
                        p_fail_repair_new_signal=P["pNew"], p_fail_repair_reboot=P["pReboot"],
                        new_signal_time=T(P["tNew"] * 3600, 1), reboot_time=T(P["tReboot"] * 60, 2),
-                       manual_software_repair_time=T(P["tSw"], 3), manual_hardware_repair_time=T(P["tHw"], 3))
+                       manual_software_repair_time=TH(P["tSw"], case.get("manual_unit", 3)), manual_hardware_repair_time=TH(P["tHw"], case.get("manual_unit", 3)))
     c.ps_random = rng
     sig = set()
     for st in case["steps"]:
@@ -356,7 +364,7 @@ def gen(rng, n):
                 steps.append({"op": "update", "i": i, "dt": dt, "u": str(rng.choice([F(0), F(0), rand_frac(rng, 0, 1), F(999, 1000)]))})
             else:
                 steps.append({"op": "query", "i": i, "u1": str(rng.choice([F(0), F(0), rand_frac(rng, 0, 1)])), "u2": str(rng.choice([F(0), F(0), rand_frac(rng, 0, 1)])), "lf": rng.random() < 0.5})
-        cases.append({"kind": "sensor", "P": P, "n": nsens, "default_manual": default_manual, "steps": steps})
+        cases.append({"kind": "sensor", "P": P, "n": nsens, "default_manual": default_manual, "steps": steps, "manual_unit": [3, 2, 1, 4][len(cases) % 4]})
     for _ in range(n // 2):
         default_manual = rng.random() < 0.3
         dt = rand_dt(rng)
@@ -370,14 +378,14 @@ def gen(rng, n):
             else:
                 steps.append({"op": "close"})
         cases.append({"kind": "switch", "tR": "2" if default_manual else str(rng.choice([F(2), F(3, 2), F(1, 2)])), "tS": str(rng.choice([F(1), F(1, 2), F(2)])),
-                      "rate": str(rng.choice([F(0), F(1000), F(8000)])), "default_manual": default_manual, "steps": steps})
+                      "rate": str(rng.choice([F(0), F(1000), F(8000)])), "default_manual": default_manual, "steps": steps, "manual_unit": [3, 2, 1, 4][len(cases) % 4]})
     for _ in range(n // 2):
         P = {"hw": str(rng.choice([F(0), F(1, 5), F(3000)])), "sw": str(rng.choice([F(0), F(12), F(6000)])), "pNew": str(rng.choice([F(1, 20), F(1), F(1, 2)])),
              "pReboot": str(rng.choice([F(9, 10), F(1), F(0)])), "tNew": str(F(2, 3600)), "tReboot": str(F(5, 60)),
              "tSw": str(rng.choice([F(3, 10), F(1), F(3, 2)])), "tHw": str(rng.choice([F(5, 2), F(2), F(1)]))}
         dt = rand_dt(rng)
         steps = [{"dt": dt, "u": [str(rng.choice([F(0), rand_frac(rng, 0, 1), F(999, 1000)])) for _ in range(4)]} for _ in range(rng.randint(4, 40))]
-        cases.append({"kind": "ctrl", "P": P, "steps": steps})
+        cases.append({"kind": "ctrl", "P": P, "steps": steps, "manual_unit": [3, 2, 1, 4][len(cases) % 4]})
     return cases
 
 
